@@ -140,7 +140,7 @@ impl Monitor for C06 {
 		"fault_enumeration"
 	}
 	fn rule(&self) -> String {
-		format!("inputs = {} corruption operators ({}) applied with fresh randomness to {} small valid seed replays covering the three framing regimes, ICs/non-ICs, gecko/no gecko, end/no end/doubled end, metadata/none; each mutated input is executed under {} modes ({}); plus I/O-fault enumeration: for every seed, mode and error kind, an injected io::Error at EVERY read call k (until the fault is no longer delivered). Monitors: panic hook+catch_unwind (any panic = violation), process death observed by the driver with write-ahead attribution (stack overflow/abort = violation), non-consuming loop (source polled at EOF > {} times, or thread burning >= 20 s CPU / sleeping with static source counters), delivered fault must surface as Err. One evaluation = one (input, mode) execution. distinct = (operator, regime) x outcome classes + distinct error messages reached.", OPS.len(), OPS.join(", "), self.seeds.len(), MODES.len(), MODES.join(", "), crate::iofault::EOF_POLL_LIMIT)
+		format!("inputs = {} corruption operators ({}) applied with fresh randomness to {} small valid seed replays covering the three framing regimes, ICs/non-ICs, gecko/no gecko, end/no end/doubled end, metadata/none; each mutated input is executed under {} modes ({}); plus I/O-fault enumeration: for every seed, mode and error kind, an injected io::Error at EVERY read call k (until the fault is no longer delivered). Monitors: panic hook+catch_unwind (any panic = violation), process death observed by the driver with write-ahead attribution (stack overflow/abort = violation), non-consuming loop (source polled at EOF > {} times, or thread burning >= 20 s CPU / sleeping with static source counters), delivered fault must surface as Err; history control: right after every 16th hostile input and at the end of each case the pristine seed is read again in the same process and must still serialise to itself. One evaluation = one (input, mode) execution. distinct = (operator, regime) x outcome classes + distinct error messages reached.", OPS.len(), OPS.join(", "), self.seeds.len(), MODES.len(), MODES.join(", "), crate::iofault::EOF_POLL_LIMIT)
 	}
 	fn assumptions(&self) -> Vec<String> {
 		vec!["'all byte strings' is explored by structure-aware operators x positions; unreached reader branches carry no verdict".into(), "built with debug-assertions and overflow-checks on (as cargo test does): arithmetic overflow panics count".into(), "large-but-successful allocations are observations, not violations; allocation-failure aborts are inconclusive".into()]
@@ -238,6 +238,16 @@ impl Monitor for C06 {
 				}
 				if k == 0 && idx % 29 == 0 {
 					out.sample = Some(json!({"case": idx, "seed": seed.name, "operator": op, "mutation": what, "input_bytes": bytes.len()}));
+				}
+				// history control with content comparison, right after a hostile input (a stale
+				// buffer may heal again later): the pristine seed must still read to the same game
+				if k % 16 == 15 {
+					out.evals += 1;
+					match common::slp_read(&seed.bytes, false, false).and_then(|g| common::slp_write(&g)) {
+						Ok(w) if w == seed.bytes => out.count("pristine_seed_identical_right_after_hostile_input", 1),
+						Ok(_) => out.violate_sub(k, "valid-input-read-differently-after-hostile-input", format!("seed [{}] read right after [{}] no longer serialises to itself: state of the failed parse leaked into the next one", seed.name, what), Some(&bytes)),
+						Err(f) => out.violate_sub(k, format!("valid-input-rejected-after-hostile-input;{}", f.sig()), format!("seed [{}] read right after [{}]: {}", seed.name, what, f.text()), Some(&bytes)),
+					}
 				}
 			}
 			// history control: after hundreds of hostile inputs in this process the pristine seed must
